@@ -1,5 +1,5 @@
 (* Pinned statements of C01: re-checked on every run. *)
-From SF Require Import Base.Prelude Gen.Generated Unsized.Types Unsized.Parse Unsized.Machine Unsized.Ops Unsized.Run Unsized.Proofs.EncodeParse Unsized.Proofs.Mem Unsized.Proofs.Notify Unsized.Proofs.Flat Unsized.Proofs.Layout Unsized.Proofs.Observe Unsized.Proofs.Path Unsized.Proofs.Context Unsized.Proofs.FocusOps Unsized.Proofs.NotifyInside Unsized.Proofs.Resize Unsized.Proofs.GenOps Unsized.Proofs.History Unsized.Proofs.Init Unsized.Proofs.History2 Unsized.Proofs.ExecTie Unsized.Proofs.ExecTie2 Unsized.Proofs.Keyed Unsized.Proofs.NotifyInside2 Unsized.Proofs.SetData Unsized.Proofs.History3 Properties.C01.
+From SF Require Import Base.Prelude Gen.Generated Unsized.Types Unsized.Parse Unsized.Machine Unsized.Ops Unsized.Run Unsized.Proofs.EncodeParse Unsized.Proofs.Mem Unsized.Proofs.Notify Unsized.Proofs.Flat Unsized.Proofs.Layout Unsized.Proofs.Observe Unsized.Proofs.Path Unsized.Proofs.Context Unsized.Proofs.FocusOps Unsized.Proofs.NotifyInside Unsized.Proofs.Resize Unsized.Proofs.GenOps Unsized.Proofs.History Unsized.Proofs.Init Unsized.Proofs.History2 Unsized.Proofs.ExecTie Unsized.Proofs.ExecTie2 Unsized.Proofs.Keyed Unsized.Proofs.NotifyInside2 Unsized.Proofs.SetData Unsized.Proofs.History3 Unsized.Proofs.History4 Properties.C01.
 
 Check (C01_flat_step_refines :
   forall ts vs s top o vs',
@@ -160,6 +160,20 @@ Check (C01_keyed_unsized_map_remove :
       umap_remove_op t s top (mpath pi) k key = Ok (s', top', [1]) /\
       RepF (pi ++ [SF 0]) t (plug t v (pi ++ [SF 0]) (VUList items')) s' top' /\
       m_cap s' = m_cap s /\ m_refuse s' = m_refuse s /\ strictly_ascending (ukeys items') = true).
+Check (C01_keyed_unsized_map_overwrite :
+  forall ovf pi t v it k items key s top idx,
+    resolve t v (pi ++ [SF 0]) = Some (TUList it k, VUList items) -> k <> 0%nat ->
+    RepF (pi ++ [SF 0]) t v s top -> zero_ok it = true -> headed it = true ->
+    lower_bound (ukeys items) key 0 = (idx, true) -> m_refuse s <> 1 ->
+    (forall kv, nth_error items (Z.to_nat idx) = Some kv ->
+       0 < zlen (encode it (snd kv)) /\ m_len s + (zlen (encode it (dflt it)) - zlen (encode it (snd kv))) <= m_cap s) ->
+    exists kv s' top',
+      nth_error items (Z.to_nat idx) = Some kv /\
+      (let items' := firstn (Z.to_nat idx) items ++ (fst kv, dflt it) :: skipn (S (Z.to_nat idx)) items in
+       umap_insert_op ovf t s top (mpath pi) it k key 0 = Ok (s', top', [0]) /\
+       RepF (pi ++ [SF 0; SE (Z.to_nat idx)]) t (plug t v (pi ++ [SF 0]) (VUList items')) s' top' /\
+       m_cap s' = m_cap s /\ m_refuse s' = m_refuse s /\ ukeys items' = ukeys items /\
+       strictly_ascending (ukeys items') = true)).
 Check (C01_full_step_refines :
   forall ovf t v s top pi0 o v' obs,
     RepF pi0 t v s top -> m_refuse s <> 1 -> ostepY (m_cap s) t v o = Some (v', obs) ->
@@ -197,6 +211,7 @@ Print Assumptions C01_keyed_set_insert.
 Print Assumptions C01_keyed_map_overwrite.
 Print Assumptions C01_keyed_unsized_map_insert.
 Print Assumptions C01_keyed_unsized_map_remove.
+Print Assumptions C01_keyed_unsized_map_overwrite.
 Print Assumptions C01_full_step_refines.
 Print Assumptions C01_full_run_refines.
 Print Assumptions C01_keyed_views_stay_sorted.
